@@ -6,11 +6,13 @@ import (
 	"encoding/json"
 	"fmt"
 	"io"
+	"math"
 	"os"
 	"os/exec"
 	"path/filepath"
 	"regexp"
 	"runtime"
+	"strconv"
 	"strings"
 	"sync"
 	"sync/atomic"
@@ -577,9 +579,57 @@ func c09Strace(c *Ctx, k int) {
 		c.Note(fmt.Sprintf("fault-free opgen run exited %d: %s", exit, se))
 		return
 	}
-	if n4 < units {
-		c.Violate("too-few-kernel-entropy-reads", fmt.Sprintf("opgen %v produced %d units but made only %d getrandom(4) calls", args, units, n4), det)
+	// Conservation at the kernel boundary, in a form that does not depend on how the library sizes or batches
+	// its reads: the bytes the kernel delivered must carry at least the entropy of what was printed (a very
+	// conservative floor: log2(10) bits per character, log2(5) per word).
+	sizes := map[int]int{}
+	total := 0
+	for _, m := range reGetrandomAny.FindAllStringSubmatch(log, -1) {
+		req, _ := strconv.Atoi(m[1])
+		got, _ := strconv.Atoi(m[2])
+		if got > 0 {
+			total += got
+			sizes[req]++
+		}
+	}
+	det["getrandom_bytes_delivered"] = total
+	floorBits := float64(units) * math.Log2(10)
+	if args[0] == "words" {
+		floorBits = float64(units) * math.Log2(5)
+	}
+	if float64(total*8) < floorBits {
+		c.Violate("too-few-kernel-entropy-bytes", fmt.Sprintf("opgen %v printed a password of at least %.1f bits but the kernel delivered only %d random bytes", args, floorBits, total), det)
 		return
+	}
+	c.Count("units_with_fewer_4_byte_reads_than_units(informational)", int64(b2i(n4 < units)))
+	// Same source bytes, same choices - at the kernel boundary: every entropy request answered "delivered" with the
+	// buffer left untouched (all zero). Every bounded draw then sees the same raw word, so within one password
+	// every character (every word) must be the same one; any other source of choice (clock, pid, math/rand, map
+	// order used as a die) shows up as a position that differs. Only attempted when all requests have one size.
+	if len(sizes) == 1 {
+		req := 0
+		for k := range sizes {
+			req = k
+		}
+		so0, se0, exit0, log0, err0 := run([]string{"-e", fmt.Sprintf("inject=getrandom:retval=%d", req)})
+		c.Exec(1)
+		inj := strings.Count(log0, "(INJECTED)")
+		switch {
+		case err0 != nil || inj == 0:
+			c.Count("strace_zero_entropy_not_effective", 1)
+		case exit0 != 0:
+			c.Count("strace_zero_entropy_runs_refused", 1) // e.g. a requirement no constant stream can meet
+			_ = se0
+		default:
+			c.Count("strace_zero_entropy_runs", 1)
+			c.Distinct("nontrivial", fmt.Sprintf("strace-zero|%v", args))
+			line := strings.TrimRight(so0, "\n")
+			if bad := zeroEntropyMismatch(args[0], line, units); bad != "" {
+				c.Violate("choices-not-determined-by-kernel-entropy", fmt.Sprintf("opgen %v with every kernel entropy read answered by zeros printed %q: %s", args, line, bad),
+					map[string]interface{}{"argv": args, "stdout": so0, "injected_reads": inj})
+				return
+			}
+		}
 	}
 	// no file other than the word list (and runtime files) is read
 	for _, line := range strings.Split(log, "\n") {
@@ -643,6 +693,46 @@ func c09Strace(c *Ctx, k int) {
 	if k < 2 {
 		c.Sample(det)
 	}
+}
+
+// reGetrandomAny matches a completed getrandom of any size: groups = bytes requested, bytes delivered
+var reGetrandomAny = regexp.MustCompile(`(?:getrandom\(|getrandom resumed>)(?:"[^"]*"(?:\.\.\.)?|0x[0-9a-f]+), (\d+), (?:0|GRND_\w+)\)\s+= (-?\d+)`)
+
+func b2i(b bool) int {
+	if b {
+		return 1
+	}
+	return 0
+}
+
+// zeroEntropyMismatch says why a password printed under an all-zero entropy stream is not "the same choice at
+// every position", or "" if it is. Separators (digits, hyphens) and capitalisation are set aside: separator
+// alphabets are legitimately rebuilt per call and one-word capitalisation legitimately singles out word 0.
+func zeroEntropyMismatch(kind, line string, units int) string {
+	if kind == "characters" {
+		rs := []rune(line)
+		if len(rs) != units {
+			return fmt.Sprintf("%d characters instead of %d", len(rs), units)
+		}
+		for i, r := range rs {
+			if r != rs[0] {
+				return fmt.Sprintf("position %d holds %q, position 0 holds %q although both draws saw the same raw bytes", i, r, rs[0])
+			}
+		}
+		return ""
+	}
+	var b strings.Builder
+	for _, r := range strings.ToLower(line) {
+		if (r >= '0' && r <= '9') || r == '-' {
+			continue
+		}
+		b.WriteRune(r)
+	}
+	w := b.String()
+	if units == 0 || len(w)%units != 0 || w != strings.Repeat(w[:len(w)/units], units) {
+		return fmt.Sprintf("the %d words are not one word repeated although every draw saw the same raw bytes", units)
+	}
+	return ""
 }
 
 func head(s string, n int) string {
